@@ -126,7 +126,7 @@ pub fn corpus(extras: bool, thorough: bool) -> Vec<G> {
                 g.push_str(&format!("u_{n} = {{ {n} }} "));
             }
             g.push_str(&format!("r = {{ ({})* ~ EOI }}", chunk.iter().take(6).map(|n| format!("u_{n}")).collect::<Vec<_>>().join(" | ")));
-            extra.push(G { text: g, alphabet: "a1\u{4e2d}\u{1f600} ".into(), class: "unicode-names" });
+            extra.push(G { text: g, alphabet: "a1\u{4e2d}\u{1f600} \u{feff}".into(), class: "unicode-names" });
         }
     }
     // stack ops
